@@ -560,6 +560,60 @@ def r6(ctx, prog):
     ctx.floor(R, 4)
 
 
+def r7(ctx, prog):
+    R = ctx.rule("C20.R7", "JSON output stays terminated: the caller's buffer starts out terminated, and in mi_heap_buf_print every path that stored a character "
+                           "reaches a terminator store (buf[used] = 0, or buf[size-1] = 0 through mi_heap_buf_expand) before the function returns — also when the buffer is full")
+    if not prog.has("mi_heap_buf_print"):
+        ctx.broke("C20.R7: mi_heap_buf_print not found")
+        return
+    f = prog.fn("mi_heap_buf_print")
+    cfg = f.cfg
+
+    def buf_store(h, e):
+        """(index node, value node) when e is `X->buf[idx] = v` / `X.buf[idx] = v` (or through a char* parameter), else None"""
+        n = h.nodes[e]
+        if n["k"] != "BinaryOperator" or n["op"] != "=":
+            return None
+        l = h.strip(n["c"][0])
+        if h.nodes[l]["k"] != "ArraySubscriptExpr":
+            return None
+        base = h.nodes[l]["c"][0]
+        if not (h.mentions_field(base, "buf") or (rl.var_of(h, base) in h.pids and "char" in h.nodes[h.strip(base)].get("t", ""))):
+            return None
+        return h.nodes[l]["c"][1], n["c"][1]
+    content = [e for e in f.all(kind="BinaryOperator") if buf_store(f, e) and f.cv(buf_store(f, e)[1]) != 0]
+    term = [e for e in f.all(kind="BinaryOperator") if buf_store(f, e) and f.cv(buf_store(f, e)[1]) == 0]
+    # the refill routine terminates the (full) buffer at its last byte on every path on which there is a buffer
+    exp_ok = False
+    if prog.has("mi_heap_buf_expand"):
+        g = prog.fn("mi_heap_buf_expand")
+        last = [e for e in g.all(kind="BinaryOperator") if buf_store(g, e) and g.cv(buf_store(g, e)[1]) == 0 and
+                rl.canon(g, buf_store(g, e)[0]).replace(" ", "") in ("($0->size-1)",)]
+        nobuf = lambda e, pol: rl.fact_null(g, e, pol, lambda j: g.nodes[j]["k"] == "DeclRefExpr" and g.nodes[j]["d"] == g.param_id(0)) or \
+            rl.fact_null(g, e, pol, rl.is_field(g, "buf")) or rl.rel(g, e, pol, rl.is_field(g, "size"), rl.is_const(g, lambda v: v == 0)) in ("==", "<=")
+        exp_ok = bool(last) and g.cfg.must_pass([g.cfg.entry], g.cfg.exit_points(), lambda e: e in last, edge_ok=rl.no_contradiction(g, lambda e, pol: nobuf(e, pol))) is None
+        ctx.check(R, exp_ok, g.where(), "mi_heap_buf_expand stores buf[size-1] = 0 on every path that has a buffer, before it decides whether it can grow", key="C20.R7:expand")
+    ends = lambda e: e in term or (exp_ok and rl.is_call(f, e, "mi_heap_buf_expand"))
+    if not content or not term:
+        ctx.broke("C20.R7: content / terminator stores of mi_heap_buf_print not found")
+        return
+    for c in content:
+        w = cfg.must_pass([cfg.after(c)], cfg.exit_points(), ends)
+        ctx.check(R, w is None, f.where(c), "every path from a stored character to the return passes a terminator store (the full-buffer exit included)", key="C20.R7:print", witness=w)
+    for t in term:
+        idx = buf_store(f, t)[0]
+        ctx.check(R, f.mentions_field(idx, "used") or f.mentions_field(idx, "size"), f.where(t), "the terminator goes to buf[used] (or buf[size-1])", key="C20.R7:where")
+    j = prog.fn("mi_stats_get_json")
+    ob = next((j.param_id(k) for k, p_ in enumerate(j.d["params"]) if "char" in p_["t"] and "*" in p_["t"]), None)
+    init = [e for e in j.all() if (rl.is_call(j, e, ("_mi_memzero", "memset", "_mi_memzero_aligned")) and rl.var_of(j, j.nodes[e]["args"][0]) == ob) or
+            (buf_store(j, e) and rl.var_of(j, j.nodes[j.strip(j.nodes[e]["c"][0])]["c"][0]) == ob and j.cv(buf_store(j, e)[1]) == 0 and j.cv(buf_store(j, e)[0]) == 0)]
+    uses = [a for a, l, rhs, op in j.stores() if rhs is not None and rl.var_of(j, rhs) == ob and op == "="] + \
+           [n["i"] for n in j.nodes if n["k"] == "DeclStmt" and any("init" in dd and j.mentions_decl(dd["init"], ob) for dd in n["decls"])]
+    ok = bool(init) and bool(uses) and all(rl.precedes(j, lambda e: e in init, u) is None for u in uses)
+    ctx.check(R, ok, j.where(), "the caller's buffer is cleared (or at least starts with a terminator) before it becomes the output buffer", key="C20.R7:init")
+    ctx.floor(R, 4)
+
+
 def run(ctx):
     ctx.explanation = ("Static decision of C20's code-shaped necessary conditions: folded option table, constant size arguments of all bounded-writer call sites "
                        "against the destination arrays, upper-bound dataflow for every fixed-array subscript in options/stats/libc code, cursor-vs-limit dominance "
@@ -568,7 +622,7 @@ def run(ctx):
     for c in (["REL"] if ctx.tier == "quick" else ["REL", "SEC", "DBG"]):
         prog = ctx.prog(c)
         n0 = len(ctx.instances)
-        r1(ctx, prog); r2(ctx, prog); r3(ctx, prog); r4(ctx, prog); r5(ctx, prog); r5b(ctx, prog); r6(ctx, prog)
+        r1(ctx, prog); r2(ctx, prog); r3(ctx, prog); r4(ctx, prog); r5(ctx, prog); r5b(ctx, prog); r6(ctx, prog); r7(ctx, prog)
         if c != "REL":
             for i in ctx.instances[n0:]:
                 i["site"] += " [%s]" % c
